@@ -35,7 +35,7 @@ func checkC01(c *Ctx) {
 	tree.Depth = c.pick(4, 5)
 	c.runSketchGen(&tree, mx, c.pick(6, 12), "exhaustive tree of unit adds")
 	sim := &SketchGen{Init: one, Tokens: append(append([]int{}, tokBins3...), tokZero...), Ops: []string{"Add"}, Q: 4, QDen: 8,
-		Depth: c.pick(12, 24), Simulate: true, Num: c.pick(1500, 40000)}
+		Depth: c.pick(12, 24), Simulate: true, Num: c.pick(1500, 20000)}
 	c.runSketchGen(sim, mx, c.pick(8, 16), "simulated long add histories")
 	// bulk adds: 70 adds of one value make the paginated store allocate a page while isolated lower values stay in its
 	// buffer; with three more adds n-1 = 72 and the grid k/72 asks for EVERY integer rank, also the one where the answer
@@ -63,7 +63,7 @@ func checkC11(c *Ctx) {
 	c.runSketchGen(tree, mx, c.pick(6, 12), "exhaustive tree of weighted adds")
 	sim := &SketchGen{Init: one, Tokens: append(append([]int{}, tokBins3...), 0, 2), Weights: []int{1, 2, 3, 4, 8, 12, 4096},
 		Factors: [][2]int{{1, 2}, {1, 4}, {2, 1}, {3, 1}, {1, 1}}, Ops: []string{"AddW", "AddW", "Add", "Reweight"}, Q: 4, QDen: 8,
-		Depth: c.pick(10, 20), Simulate: true, Num: c.pick(1500, 40000)}
+		Depth: c.pick(10, 20), Simulate: true, Num: c.pick(1500, 20000)}
 	c.runSketchGen(sim, mx, c.pick(8, 16), "simulated weighted histories")
 	c.runSketchTraces(c.pick(6, 60), true, c.pick(600, 2500), "weighted inputs, random and extreme q")
 }
